@@ -26,6 +26,7 @@ def _specific(ctx: CheckContext, p: Program, r: Resolver):
     ctx.guard(derived.check_derived, ctx, r, st, invariant_props=["CP", "t_min", "t_max", "t_min_star", "t_max_star", "htr"],
                           base_props=["t_supply", "t_target", "heat_flow", "dt_cont", "htc"])
     ctx.guard(derived.check_stale_order, ctx, r, st)
+    ctx.guard(derived.check_setter_siblings, ctx, r, st, ["t_supply", "t_target", "heat_flow", "dt_cont", "htc"])
     groups = ctx.guard(derived.check_shift_direction, ctx, r, st)
     if groups is not None:
         ctx.guard(derived.check_helper_guards, ctx, r, st, groups)
